@@ -3,7 +3,7 @@
 //! `Interrupted` errors (which `Read::bytes` must retry), a reader that fails
 //! for good at a chosen offset, and real files in a scratch directory.
 
-use std::io::{self, Read};
+use std::io::{self, Read, Write};
 use std::path::PathBuf;
 
 pub struct Chunky<'a> {
@@ -59,4 +59,37 @@ pub fn scratch_path(tag: &str) -> PathBuf {
     let tid = format!("{:?}", std::thread::current().id());
     let tid: String = tid.chars().filter(|c| c.is_ascii_digit()).collect();
     dir.join(format!("rfmon-io-{}-{}-{}", std::process::id(), tid, tag))
+}
+
+/// A writer that accepts 1..7 bytes per call and now and then reports EINTR:
+/// what `write_all` exists for.
+pub struct ChunkyWriter {
+    pub out: Vec<u8>,
+    state: u64,
+    pub interrupts: u64,
+    pub writes: u64,
+}
+
+impl ChunkyWriter {
+    pub fn new(seed: u64) -> Self {
+        ChunkyWriter { out: vec![], state: seed | 1, interrupts: 0, writes: 0 }
+    }
+}
+
+impl Write for ChunkyWriter {
+    fn write(&mut self, buf: &[u8]) -> io::Result<usize> {
+        self.writes += 1;
+        self.state = self.state.wrapping_add(0x9e3779b97f4a7c15);
+        let r = crate::mix64(self.state);
+        if r % 5 == 0 {
+            self.interrupts += 1;
+            return Err(io::Error::new(io::ErrorKind::Interrupted, "injected EINTR"));
+        }
+        let n = ((1 + (r >> 8) % 7) as usize).min(buf.len());
+        self.out.extend_from_slice(&buf[..n]);
+        Ok(n)
+    }
+    fn flush(&mut self) -> io::Result<()> {
+        Ok(())
+    }
 }
